@@ -151,6 +151,10 @@ class C03:
                 out["nontrivial"] = True
                 out["sample"] = {"spec": spec, "config": config}
                 return out
+            if X.refused_to_pickle(log):
+                out.update(violation=None, violations=[], nontrivial=False, sample=None)
+                out["counters"]["skipped_not_picklable_without_cloudpickle"] = 1
+                return out
         # a second, untouched build gives the ids and the pre-run snapshots (objects are rebuilt identically)
         from checks import components as K
         tog_calls = list(sim.user.get("calls", [])) if sim is not None else K.take_outside_calls()
